@@ -19,7 +19,7 @@ def crash(K, E, **kw):
     p.update(kw)
     return p
 
-SCHED = {"HarnessCrash", "HarnessClose", "HarnessNonBlocking", "HarnessFault", "HarnessNoFalseAlarm", "HarnessDetect"}
+SCHED = {"HarnessCrash", "HarnessClose", "HarnessNonBlocking", "HarnessFault", "HarnessNoFalseAlarm", "HarnessDetect", "HarnessHistory", "HarnessRetry"}
 
 def H(fn, params=None, shards=1, depth=5, timeout="10m", pkg="harness/hwal", **kw):
     d = {"pkg": pkg, "fn": fn, "params": params or {}, "shards": shards, "sharddepth": depth, "timeout": timeout}
@@ -132,7 +132,7 @@ checks["C13"] = dict(
 checks["C05"] = dict(
     runs=dict(
         quick=[H("HarnessSeq", {"K": 2, "bmax": 100}, shards=4, depth=4),
-               H("HarnessSeq", {"K": 3, "bmax": 100, "ops": 4}, shards=14, depth=5),
+               H("HarnessSeq", {"K": 3, "bmax": 100, "ops": 4, "endreopen": 1}, shards=14, depth=5),
                H("HarnessSeq", {"K": 2, "bmax": 100, "seg": 64}, shards=4, depth=4),
                H("HarnessSeq", {"K": 3, "bmax": 1, "seg": 100, "rotmode": 1, "ops": 4}, shards=14, depth=5)],
         thorough=[H("HarnessSeq", {"K": 3, "bmax": 100}, shards=28, depth=5),
@@ -140,8 +140,8 @@ checks["C05"] = dict(
                   H("HarnessSeq", {"K": 3, "bmax": 100, "seg": 64}, shards=28, depth=5),
                   H("HarnessSeq", {"K": 2}, shards=28, depth=5, timeout="30m"),
                   H("HarnessSeq", {"K": 4, "bmax": 100, "seg": 100, "ops": 4}, shards=56, depth=6, timeout="40m")]),
-    required_reach=["seq-done", "append1", "append2", "delete", "reopen", "bad-append", "probe-present", "probe-absent"],
-    bounds=dict(quick='all sequences of K<=2 operations from {append 1, append 2, bad append (non-contiguous / internally non-consecutive, offending index 64-bit symbolic), DeleteRange(min,max), Close+Open} with 256- and 64-byte segments, and all sequences of K=3 without the bad append; start index symbolic in [1,100], min/max/probe index unconstrained 64-bit; Term<128, payload 0..1 bytes; plus K=3 from start index 1 with the background rotation left pending or run after each call (so Close can meet a pending rotation and the next Open completes it)',
+    required_reach=["seq-done", "append1", "append2", "delete", "reopen", "bad-append", "probe-present", "probe-absent", "final-reopen"],
+    bounds=dict(quick='all sequences of K<=2 operations from {append 1, append 2, bad append (non-contiguous / internally non-consecutive, offending index 64-bit symbolic), DeleteRange(min,max), Close+Open} with 256- and 64-byte segments, and all sequences of K=3 without the bad append, each followed by one more Close/Open after which First/Last and a second symbolic probe are compared again; start index symbolic in [1,100], min/max/probe index unconstrained 64-bit; Term<128, payload 0..1 bytes; plus K=3 from start index 1 with the background rotation left pending or run after each call (so Close can meet a pending rotation and the next Open completes it)',
                 thorough='K=3 with the full alphabet, 64-byte segments, start index over the whole 64-bit range (all varint widths) with K=2, K=4 without bad appends'),
     assumptions=COMMON_ASSUME + ["appended indexes do not wrap (start index <= 2^64-17)"],
     outside=["sequences longer than K", "index wrap at 2^64"],
@@ -154,18 +154,19 @@ checks["C08"] = dict(
                H("HarnessStableBolt", {}, pkg="harness/hfs"),
                H("HarnessMetaRecord", {}, pkg="harness/hfs"),
                H("HarnessMetaInit", {"F": 1}, pkg="harness/hfs", trace=True, crossval=2),
-               H("HarnessCrash", crash(2, 1, opset=9), shards=16, depth=8)],
+               H("HarnessCrash", crash(2, 1, opset=9), shards=16, depth=8),
+               H("HarnessStableRace", {"P": 2}, pkg="harness/hsched", tags="verif", sched=True, shards=6, depth=3)],
         thorough=[H("HarnessStable"),
                   H("HarnessStableBolt", {}, pkg="harness/hfs"),
                   H("HarnessMetaRecord", {}, pkg="harness/hfs"),
                   H("HarnessMetaInit", {"F": 1}, pkg="harness/hfs", trace=True, crossval=2),
                   H("HarnessCrash", crash(3, 1, opset=9), shards=40, depth=8, timeout="30m"),
                   H("HarnessCrash", crash(2, 1, opset=13, seg=64), shards=40, depth=8, timeout="30m")]),
-    required_reach=["stable-checked", "stable-bolt-checked", "meta-record-checked", "stable-set", "crash-verified"],
+    required_reach=["stable-checked", "stable-bolt-checked", "meta-record-checked", "stable-set", "crash-verified", "stable-race-checked"],
     bounds=dict(quick="keys of 1..2 symbolic bytes, values of 6..9 symbolic bytes, uint64 values 64-bit symbolic; interleaved with a sealing append, a truncation and a reopen; crash family: K<=2 operations from {append, Set} then a power loss at any call - an acknowledged Set is read back after recovery",
                 thorough="K<=3 and DeleteRange in the alphabet"),
     assumptions=COMMON_ASSUME + ["MetaStore model: SetStable atomic and durable on return (bbolt's own crash safety is trusted, not encoded)"],
-    outside=["bbolt internals and size limits", "concurrent Set/Get"],
+    outside=["bbolt internals and size limits", "concurrent stable operations beyond one write racing one other call under <=2 (3) preemptions at hooks and environment calls"],
     level_text="Bounded symbolic execution of wal.Set/Get/SetUint64/GetUint64 and of log operations over the MetaStore model; call-trace assertions separate log and stable traffic",
     level_note="MetaStore contract assumed; bounded")
 
@@ -191,13 +192,14 @@ checks["C12"] = dict(
         quick=[H("HarnessRoundTrip", {"ndlen": 3, "nelen": 2}, pkg="harness/hcodec", shards=8, depth=4),
                H("HarnessRoundTrip", {"ndlen": 2, "nelen": 1, "zone": 1}, pkg="harness/hcodec", shards=4, depth=3),
                H("HarnessCodecID", {}, shards=1),
-               H("HarnessAlias", {}, shards=1)],
+               H("HarnessAlias", {}, shards=1),
+               H("HarnessPoolRace", {"P": 2}, pkg="harness/hsched", tags="verif", sched=True)],
         thorough=[H("HarnessRoundTrip", {"ndlen": 5, "nelen": 5}, pkg="harness/hcodec", shards=28, depth=5, timeout="30m"),
                   H("HarnessRoundTrip", {"ndlen": 3, "nelen": 2, "zone": 1}, pkg="harness/hcodec", shards=8, depth=3),
                   H("HarnessCodecID", {}, shards=1),
                   H("HarnessAlias", {"big": 1}, shards=1)]),
-    required_reach=["roundtrip-checked", "zoned-time", "codec-id-checked", "alias-checked"],
-    bounds=dict(quick="Index, Term 64-bit symbolic (all ten varint widths incl. MaxUint64), Type 8-bit, Data in {nil, empty, 1, 128 bytes (two-byte length varint)}, Extensions in {nil, empty, 1 byte}, AppendedAt symbolic seconds<2^40 and nanoseconds, in UTC and in a fixed zone with a symbolic offset of -32768..32767 seconds (whole minutes and not: the 15- and 16-byte time encodings); custom codec ID 64-bit symbolic; two reads through the pooled buffer",
+    required_reach=["roundtrip-checked", "zoned-time", "codec-id-checked", "alias-checked", "pool-race-checked"],
+    bounds=dict(quick="Index, Term 64-bit symbolic (all ten varint widths incl. MaxUint64), Type 8-bit, Data in {nil, empty, 1, 128 bytes (two-byte length varint)}, Extensions in {nil, empty, 1 byte}, AppendedAt symbolic seconds<2^40 and nanoseconds, in UTC and in a fixed zone with a symbolic offset of -32768..32767 seconds (whole minutes and not: the 15- and 16-byte time encodings); custom codec ID 64-bit symbolic; two reads through the pooled buffer, sequentially and concurrently (two readers, a >64 KiB entry and a small one, <=2 preemptions at VFS calls and where a pooled buffer is taken / released)",
                 thorough="Data/Extensions lengths up to 127 and 128 bytes; an entry of 64 KiB +/- 8 across the pooled-buffer boundary"),
     assumptions=["time.Time.UnmarshalBinary through a contract stub (version 1 = 15 bytes or version 2 = 16 bytes, seconds/nanoseconds decoded, zone dropped: Equal ignores it); MarshalBinary, FixedZone, In, Zone interpreted from the standard library source; offsets in the minute -1 are excluded (MarshalBinary itself refuses them)", "nil and empty slices are treated as equal (the codec cannot distinguish them, raft does not need it)"],
     outside=["monotonic clock readings (stripped by MarshalBinary by contract)", "zone offsets beyond 16 bits of seconds", "payloads longer than 128 bytes in the symbolic round trip"],
@@ -241,23 +243,28 @@ VERIF_ASSUME = ["ideal FNV-1a: running sums are collision-free and non-zero for 
 
 checks["C16"] = dict(
     runs=dict(
-        quick=[H("HarnessNoFalseAlarm", {}, pkg="harness/hverif", shards=8, depth=4), H("HarnessRetry", {}, pkg="harness/hverif")],
-        thorough=[H("HarnessNoFalseAlarm", {}, pkg="harness/hverif", shards=8, depth=4), H("HarnessRetry", {}, pkg="harness/hverif")]),
-    required_reach=["retry-checked", "no-false-alarm-checked", "plain", "follower-restart", "head-truncated", "leader-change", "two-checkpoints", "leader-restart", "truncation-at-range-start"],
-    bounds="2..3 entries (symbolic Term, 1..2 symbolic Data bytes) then a checkpoint; every split of the replication into two batches; scenarios: plain, follower restart before the checkpoint, follower head truncation (expects ErrRangeMismatch), leadership change with a conflicting suffix of every length (tail truncation + new leader's entries), two consecutive checkpoints, a leader whose middleware restarted mid-interval, a tail truncation ending exactly where the follower's running sum starts; a batch whose write to the underlying store fails once and is retried unaltered",
+        quick=[H("HarnessNoFalseAlarm", {}, pkg="harness/hverif", shards=8, depth=4), H("HarnessRetry", {}, pkg="harness/hverif"),
+               H("HarnessHistory", {"K": 4}, pkg="harness/hverif", shards=14, depth=3)],
+        thorough=[H("HarnessNoFalseAlarm", {}, pkg="harness/hverif", shards=8, depth=4), H("HarnessRetry", {}, pkg="harness/hverif"),
+                  H("HarnessHistory", {"K": 5}, pkg="harness/hverif", shards=28, depth=4, timeout="30m")]),
+    required_reach=["history-checked", "history-report", "history-partial-range", "retry-with-checkpoint", "retry-checked", "no-false-alarm-checked", "plain", "follower-restart", "head-truncated", "leader-change", "two-checkpoints", "leader-restart", "truncation-at-range-start"],
+    bounds="2..3 entries (symbolic Term, 1..2 symbolic Data bytes) then a checkpoint; every split of the replication into two batches; scenarios: plain, follower restart before the checkpoint, follower head truncation (expects ErrRangeMismatch), leadership change with a conflicting suffix of every length (tail truncation + new leader's entries), two consecutive checkpoints, a leader whose middleware restarted mid-interval, a tail truncation ending exactly where the follower's running sum starts; a batch (with or without the checkpoint) whose write to the underlying store fails once and is retried with the same entry objects; plus EVERY history of K=4 (thorough: 5) steps over a two-node cluster from the alphabet {node X appends an entry as leader, replicated or not; X appends a checkpoint as leader, replicated; X's middleware restarts; X compacts the first entry of its log} - leadership changes, conflicting suffixes replaced by the new leader's entries, restarts on non-empty logs and compactions inside ranges in every order - entries always delivered and read back unaltered: no report on any node may carry a checksum mismatch, a compacted range must give ErrRangeMismatch",
     assumptions=VERIF_ASSUME,
-    outside=["more than three nodes / more than two checkpoints", "ranges modified while their verification runs"],
+    outside=["more than two nodes in the history exploration, histories longer than K steps", "ranges modified while their verification runs"],
     level_text="Bounded symbolic execution of the real verifier.LogStore (StoreLogs, updateVerifyState, runVerifier, verify, checksumLog) on two or three nodes; entry contents and batch splits symbolic; z3 decides that no report carries a checksum mismatch when the stored range equals the leader's",
     level_note="ideal hash; bounded scripts")
 
 checks["C17"] = dict(
     runs=dict(
         quick=[H("HarnessDetect", {}, pkg="harness/hverif", shards=4, depth=4), H("HarnessRetry", {}, pkg="harness/hverif"), H("HarnessFnvStep", {"realfnv": 1}, pkg="harness/hverif"),
-               H("HarnessNoFalseAlarm", {"scenario0": 3, "scenarios": 1}, pkg="harness/hverif", shards=4, depth=4), H("HarnessNoFalseAlarm", {"scenario0": 6, "scenarios": 1}, pkg="harness/hverif", shards=4, depth=4)],
+               H("HarnessNoFalseAlarm", {"scenario0": 3, "scenarios": 1}, pkg="harness/hverif", shards=4, depth=4), H("HarnessNoFalseAlarm", {"scenario0": 5, "scenarios": 2}, pkg="harness/hverif", shards=4, depth=4),
+               H("HarnessNoFalseAlarm", {"scenario0": 0, "scenarios": 2}, pkg="harness/hverif", shards=4, depth=4),
+               H("HarnessHistory", {"K": 4}, pkg="harness/hverif", shards=14, depth=3)],
         thorough=[H("HarnessDetect", {}, pkg="harness/hverif", shards=4, depth=4), H("HarnessRetry", {}, pkg="harness/hverif"), H("HarnessFnvStep", {"realfnv": 1}, pkg="harness/hverif"),
-                  H("HarnessNoFalseAlarm", {"scenario0": 3, "scenarios": 1}, pkg="harness/hverif", shards=4, depth=4), H("HarnessNoFalseAlarm", {"scenario0": 6, "scenarios": 1}, pkg="harness/hverif", shards=4, depth=4)]),
-    required_reach=["detect-checked", "in-flight", "at-rest", "retry-checked", "fnv-step-injective", "leader-change", "truncation-at-range-start"],
-    bounds="range of 2..3 entries + checkpoint; one mutation at every position (first .. the checkpoint's predecessor) of Term (any other 64-bit value), first Data byte (any other value), Type (any other non-checkpoint value) or an added Extensions byte; injected before the follower's StoreLogs (in flight) or on read (at rest); every batch split; plus: a failed write retried unaltered is not blamed; plus: a follower that truncated a conflicting tail (any suffix length, and exactly the entry its running sum starts at) and stored the new leader's entries unaltered is not blamed for in-flight corruption; plus: one step of the real fnv1a.AddUint64/AddBytes64 is injective in state and input (bit-precise, z3)",
+                  H("HarnessNoFalseAlarm", {"scenario0": 3, "scenarios": 1}, pkg="harness/hverif", shards=4, depth=4), H("HarnessNoFalseAlarm", {"scenario0": 5, "scenarios": 2}, pkg="harness/hverif", shards=4, depth=4),
+                  H("HarnessHistory", {"K": 5}, pkg="harness/hverif", shards=28, depth=4, timeout="30m")]),
+    required_reach=["history-checked", "history-report", "leader-restart", "detect-checked", "in-flight", "at-rest", "retry-checked", "fnv-step-injective", "leader-change", "truncation-at-range-start"],
+    bounds="range of 2..3 entries + checkpoint; one mutation at every position (first .. the checkpoint's predecessor) of Term (any other 64-bit value), first Data byte (any other value), Type (any other non-checkpoint value) or an added Extensions byte; injected before the follower's StoreLogs (in flight) or on read (at rest); every batch split; plus: a failed write retried unaltered is not blamed; plus: a follower that truncated a conflicting tail (any suffix length, and exactly the entry its running sum starts at) and stored the new leader's entries unaltered is not blamed for in-flight corruption, nor is a follower of a leader whose middleware restarted mid-interval, nor any node in any history of K=4 (thorough: 5) steps of the two-node history exploration (see C16) in which nothing is ever altered; plus: one step of the real fnv1a.AddUint64/AddBytes64 is injective in state and input (bit-precise, z3)",
     assumptions=VERIF_ASSUME,
     outside=["length-changing mutations of Data and swapped entries (reduce to hash collisions of different-length sequences: excluded by the ideal-hash axiom, not decided bit-precisely)", "mutation of Index (memstore rejects non-contiguous entries)", "the documented exemption of the bootstrap configuration entry at index 1"],
     level_text="Bounded symbolic execution of the real verifier with one symbolic mutation; the ideal-hash layer decides the protocol logic exactly, the per-step injectivity lemma is discharged on the real fnv1a code",
@@ -265,10 +272,10 @@ checks["C17"] = dict(
 
 checks["C18"] = dict(
     runs=dict(
-        quick=[H("HarnessTransparent", {}, pkg="harness/hverif", shards=4, depth=4), H("HarnessNonBlocking", {}, pkg="harness/hverif", shards=8, depth=4)],
-        thorough=[H("HarnessTransparent", {}, pkg="harness/hverif", shards=4, depth=4), H("HarnessNonBlocking", {}, pkg="harness/hverif", shards=8, depth=4)]),
-    required_reach=["transparent-checked", "foreign-refused", "checkpoint-metadata", "nonblocking-checked", "skip-reported"],
-    bounds="transparency: base index 64-bit symbolic, two entries + checkpoint through the middleware vs directly on an identical store, GetLog at a symbolic index, DeleteRange(min,max symbolic); foreign Extensions of 1..30 symbolic bytes; non-blocking: 1..4 checkpoints, the callback blocks after 0..2 deliveries until released, verifier goroutine scheduled or not between appends",
+        quick=[H("HarnessTransparent", {}, pkg="harness/hverif", shards=4, depth=4), H("HarnessNonBlocking", {}, pkg="harness/hverif", shards=8, depth=4), H("HarnessRetry", {}, pkg="harness/hverif")],
+        thorough=[H("HarnessTransparent", {}, pkg="harness/hverif", shards=4, depth=4), H("HarnessNonBlocking", {}, pkg="harness/hverif", shards=8, depth=4), H("HarnessRetry", {}, pkg="harness/hverif")]),
+    required_reach=["retry-checked", "retry-with-checkpoint", "transparent-checked", "foreign-refused", "checkpoint-metadata", "nonblocking-checked", "skip-reported"],
+    bounds="transparency: base index 64-bit symbolic, two entries + checkpoint through the middleware vs directly on an identical store, GetLog at a symbolic index, DeleteRange(min,max symbolic); foreign Extensions of 1..30 symbolic bytes; non-blocking: 1..4 checkpoints, the callback blocks after 0..2 deliveries until released, verifier goroutine scheduled or not between appends; a follower's batch (entries, or entries and the leader's checkpoint) whose write to the underlying store fails once and is retried with the same entry objects: the caller's entries are untouched by the failure and what is finally stored equals what a plain store holds",
     assumptions=VERIF_ASSUME,
     outside=["preemption inside StoreLogs (the verifier goroutine runs only at quiescence points chosen by the harness)"],
     level_text="Bounded symbolic execution of the real verifier.LogStore against an identical plain store; the blocked callback is a goroutine parked on a channel in the engine's scheduler",
@@ -292,8 +299,10 @@ checks["C09"] = dict(
                H("HarnessFormatRead", {"maxplen": 3}, pkg="harness/hseg", shards=4, depth=4),
                H("HarnessGolden", {}, pkg="harness/hseg"),
                H("HarnessMetaRecord", {}, pkg="harness/hfs"),
-               H("HarnessFault", {"K": 2, "F": 1, "seg": 64}, shards=14, depth=7),
-               H("HarnessFault", {"K": 2, "F": 1, "pre": 2, "seg": 256}, shards=14, depth=7)],
+               H("HarnessFault", {"K": 2, "F": 1, "seg": 64, "audit": 1}, shards=14, depth=7),
+               H("HarnessFault", {"K": 2, "F": 1, "pre": 2, "seg": 256, "audit": 1}, shards=14, depth=7),
+               H("HarnessCrash", crash(1, 2, opset=1, usability=0, audit=1), shards=14, depth=8),
+               H("HarnessSeq", {"K": 3, "bmax": 1, "seg": 100, "ops": 4, "audit": 1}, shards=14, depth=5)],
         thorough=[H("HarnessMetaRecord", {}, pkg="harness/hfs"),
                   H("HarnessFault", {"K": 2, "F": 1, "seg": 64}, shards=14, depth=7),
                   H("HarnessFault", {"K": 2, "F": 1, "pre": 2, "seg": 256}, shards=14, depth=7),
@@ -302,7 +311,7 @@ checks["C09"] = dict(
                   H("HarnessFormatWrite", {"maxplen": 9, "limit": 4096, "maxbatches": 2}, pkg="harness/hseg", shards=8, depth=4),
                   H("HarnessFormatRead", {"maxplen": 9}, pkg="harness/hseg", shards=28, depth=5, timeout="30m"),
                   H("HarnessGolden", {}, pkg="harness/hseg")]),
-    required_reach=["format-write-checked", "force-sealed", "sealed-by-size", "format-read-checked", "read-sealed", "read-tail", "golden-checked", "meta-record-checked", "fault-checked"],
+    required_reach=["format-write-checked", "force-sealed", "sealed-by-size", "format-read-checked", "read-sealed", "read-tail", "golden-checked", "meta-record-checked", "fault-checked", "segment-audited", "crash-verified", "seq-done"],
     bounds=dict(quick="1..2 batches of 1..2 entries, payload lengths 0..9 (every padding residue) with symbolic bytes, BaseIndex/SegmentID/Codec 64-bit symbolic, sealing by size (120-byte limit) or ForceSeal or not at all; reader side: reference images of 1..2 batches, payloads 0..3 bytes, sealed and unsealed; golden directory written by the pinned version; after K<=2 operations with one injected I/O failure (one entry per segment, and a tail truncation inside a live tail) and a clean reopen, every segment the metadata lists as sealed has an index frame at its recorded IndexStart",
                 thorough="up to 3 batches; reader payloads 0..9 bytes; two injected failures"),
     assumptions=["ideal CRC (the commit CRC is compared as the checksum of the same byte sequence, collision-free); castagnoliTable is created by crc32.MakeTable(crc32.Castagnoli) (checked concretely by the stub)",
@@ -364,13 +373,14 @@ checks["C07"] = dict(
     runs=dict(
         quick=[H("HarnessFS", {"F": 0}, pkg="harness/hfs", trace=True, crossval=1),
                H("HarnessFS", {"F": 1}, pkg="harness/hfs", trace=True, crossval=3),
-               H("HarnessMetaInit", {"F": 1}, pkg="harness/hfs", trace=True, crossval=2)],
+               H("HarnessMetaInit", {"F": 1}, pkg="harness/hfs", trace=True, crossval=2),
+               H("HarnessCreateSizes", {}, pkg="harness/hfs", crossval=2)],
         thorough=[H("HarnessFS", {"F": 1}, pkg="harness/hfs", trace=True, crossval=4),
                   H("HarnessFS", {"F": 2}, pkg="harness/hfs", trace=True, crossval=4),
                   H("HarnessFS", {"F": 1, "seg": 64, "appends": 3}, pkg="harness/hfs", trace=True, crossval=3),
                   H("HarnessMetaInit", {"F": 2}, pkg="harness/hfs", trace=True, crossval=3)]),
-    required_reach=["fs-checked", "deleted", "store-failed", "metainit-checked", "load-failed"],
-    bounds=dict(quick="production composition wal.Open(dir, segment.NewFiler(dir, fs.New())) over the engine's OS model: three appends (first commit into a new file, second, sealing append with rotation into the next file), a head truncation deleting a segment, close; at most one injected failure of any fsync / directory fsync / pwrite / fallocate / unlink, a failed StoreLogs retried once; BoltMetaDB first Load in an empty directory with at most one failure of commit / rename / directory fsync",
+    required_reach=["fs-checked", "deleted", "store-failed", "metainit-checked", "load-failed", "create-sizes-checked"],
+    bounds=dict(quick="production composition wal.Open(dir, segment.NewFiler(dir, fs.New())) over the engine's OS model: three appends (first commit into a new file, second, sealing append with rotation into the next file), a head truncation deleting a segment, close; at most one injected failure of any fsync / directory fsync / pwrite / fallocate / unlink, a failed StoreLogs retried once; BoltMetaDB first Load in an empty directory with at most one failure of commit / rename / directory fsync; fs.Create with the requested size ONE SYMBOLIC INTEGER in 1 .. 128 MiB + 1 (exclusive creation, a preallocation covering exactly that size, resulting file length, second Create refused)",
                 thorough="two failures; one entry per segment"),
     assumptions=["OS model (engine/extern_os.go): open/pwrite/pread/fallocate/fsync/unlink/rename/stat/readdir on an in-memory file tree, each traced; kernel contract assumed: fsync(file) makes its bytes durable, fsync(dir) makes create/unlink/rename durable, fallocate(extend) yields a zero-filled file of the requested size",
                  "bbolt model (engine/extern_bolt.go): transactional key/value store per path, Commit atomic; bbolt's own crash safety is trusted",
@@ -388,7 +398,7 @@ checks["C06"] = dict(
                   H("HarnessReadersWriter", {"P": 2, "seg": 64}, pkg="harness/hsched", tags="verif", sched=True, shards=14, depth=4),
                   H("HarnessPoolRace", {"P": 3}, pkg="harness/hsched", tags="verif", sched=True, shards=4, depth=2)]),
     required_reach=["readers-writer-checked", "pool-race-checked"],
-    bounds=dict(quick="one writer running one of three scripts (append with rotation then head truncation; append, tail truncation, re-append of different content at the same index; truncate everything then restart at another index) against one reader issuing FirstIndex / LastIndex / GetLog(i in 1..5), every schedule with <=2 preemptions taken at the named schedule points of raft-wal (-tags verif) or at a VFS call; two readers sharing the pooled buffers on a >64 KiB entry",
+    bounds=dict(quick="one writer running one of four scripts (append then head truncation inside a sealed segment; append, tail truncation, re-append of different content at the same index; truncate everything then restart at another index; appends that fill the tail - rotation queued - then a truncation of the whole log and a restart at another index) against one reader issuing FirstIndex / LastIndex / GetLog(i in 1..5), every schedule with <=2 preemptions taken at the named schedule points of raft-wal (-tags verif) or at a VFS call; two readers sharing the pooled buffers on a >64 KiB entry",
                 thorough="3 preemptions; one entry per segment"),
     assumptions=COMMON_ASSUME + ["interleavings are sequentially consistent and switch only at schedule points (wal.VerifSched hooks, VFS calls, blocking operations); the linearizability oracle: the reader's result must match some state between the number of writer operations completed at its start and started at its end"],
     outside=["the clause 'no execution contains a data race': plain-memory races and weak-memory effects are not modelled by interleaving at schedule points and cannot be decided by this family (DESIGN.md section 8)", "more than P preemptions, more than one reader in the linearizability harness, preemption inside segment.Writer between its atomics"],
